@@ -64,6 +64,10 @@ FUNCTIONS = [
     "autoarray.inversion.inversion.imaging.w_tilde.InversionImagingWTilde.data_vector",
     "autoarray.inversion.inversion.imaging.w_tilde.InversionImagingWTilde.curvature_matrix",
     "autoarray.inversion.regularization.regularization_util.constant_regularization_matrix_from",
+    "autoarray.structures.mesh.triangulation_2d.Abstract2DMeshTriangulation.voronoi_pixel_areas",
+    "autoarray.structures.mesh.triangulation_2d.Abstract2DMeshTriangulation.voronoi_pixel_areas_for_split",
+    "autoarray.structures.mesh.triangulation_2d.Abstract2DMeshTriangulation.split_cross",
+    "autoarray.structures.mesh.voronoi_2d.Mesh2DVoronoi.areas_for_magnification",
 ]
 BOUNDS = {
     "quick": "Part A: all masks (>=1 unmasked pixel) of every shape <=3x3 for Mask2D/Array2D/Kernel2D/Grid2D/VectorYX2D/irregular "
@@ -76,19 +80,23 @@ BOUNDS = {
              "native storage; 22 ops), Grid2D (2 unmasked pixels, slim and native storage; 21 ops), Mask2D (all 7 four-fold symmetric "
              "3x3 masks, symbolic pixel scale; 11 ops), masked Imaging 4x4 (symbolic data/noise/origin, concrete PSF; 12 ops), and "
              "mapper + 2 valued mappers + inversion on 5x5 frames with 9 / 6 unmasked pixels (mapping formalism k<=2, w-tilde k<=1; "
-             "symbolic data and mapper values; 20 ops, 16 observations).  Part C: poisson/gaussian helpers of dataset.preprocess and "
+             "symbolic data and mapper values; 20 ops, 16 observations), and Mesh2DVoronoi / Mesh2DDelaunay on a CONCRETE perturbed 3x3 "
+             "vertex lattice with unbounded edge cells (qhull runs natively; only the history and observation indices are solver "
+             "variables there; 12 / 10 ops: voronoi_pixel_areas, voronoi_pixel_areas_for_split, split_cross, areas_for_magnification on the "
+             "mesh and on x.copy() / x*2).  Part C: poisson/gaussian helpers of dataset.preprocess and "
              "SimulatorImaging.via_image_from (with and without PSF) on a 2x3 image: symbolic image, sky level, PSF, seed (every integer "
              "0 <= k < 2^32) and two symbolic prior generator states",
     "thorough": "Part A as quick.  Part B with the full operation lists (up to 33 ops per level), more masks (3x3 'L', 2x3 diagonal, "
                 "5x5 frames with 9 / 6 pixels for the mapping / w-tilde formalism, both at k<=2), Visibilities with 3 values, k<=3 on "
                 "the Visibilities level, all 63 masks of 2x3 at k<=1 on the Mask2D level, signal_to_noise_map histories of length 2.  "
+                "Triangulation meshes on a 4x4 lattice with the full op list (edge_pixel_list, neighbors, delaunay, voronoi) and k<=3 on the 3x3 Voronoi mesh.  "
                 "Part C also 3x3 images",
 }
 OUTSIDE = [
     "histories longer than the stated k (bounded model checking of the history quantifier, no induction)",
     "Interferometer datasets / transformers / the pylops inversion (pylops is absent); only the factory route for a non-Imaging dataset is constructed",
     "Imaging.w_tilde with a symbolic noise map or PSF (read only with concrete noise/PSF on the inversion level); signal_to_noise_map only in dedicated short histories (it forks on the sign of every pixel)",
-    "Voronoi / Delaunay mappers, interpolated_array_from, magnification_*, max_pixel_* of MapperValued (argmax / argsort of symbolic values fork on every comparison); positive-only solver (use_positive_only_solver=False), check_reconstruction=False",
+    "symbolic vertex positions of triangulation meshes (scipy.spatial.Voronoi / Delaunay need concrete vertices); Voronoi / Delaunay mappers, interpolated_array_from, magnification_*, max_pixel_* of MapperValued (argmax / argsort of symbolic values fork on every comparison); positive-only solver (use_positive_only_solver=False), check_reconstruction=False",
     "data_with_complex_gaussian_noise_added (complex arithmetic on the RNG draws) - its seeding goes through gaussian_noise_via_shape_and_sigma_from, which is covered",
     "bit-exact determinism of compiled / BLAS routines; float64 rounding (exact real arithmetic; every sat verdict replayed in float64)",
     "aliasing that never leads to a changed value (e.g. Grid2D(values=slim) keeps a reference to the caller's array)",
@@ -1646,7 +1654,12 @@ def cases(tier):
         out += _hist_cases("imaging", {"mask_id": "4x4_inner"}, 2)
         out += _hist_cases("inversion", {"mask_id": "5x5_inner", "w_tilde": 0}, 2)
         out += _hist_cases("inversion", {"mask_id": "5x5_inner_L", "w_tilde": 1}, 1)
+        for cls in ("Voronoi", "Delaunay"):
+            out += _hist_cases("mesh", {"cls": cls, "n": 3}, 2)
     else:
+        for cls in ("Voronoi", "Delaunay"):
+            out += _hist_cases("mesh", {"cls": cls, "n": 4, "full": True}, 2)
+        out += _hist_cases("mesh", {"cls": "Voronoi", "n": 3}, 3)
         out += _hist_cases("vis", {"n": 3, "full": True}, 2)
         out += _hist_cases("vis", {"n": 2}, 3)
         for cls, sn, mid in (("Array2D", 0, "3x3_plus"), ("Array2D", 1, "3x3_L"), ("Kernel2D", 0, "3x3_all"), ("Kernel2D", 1, "3x3_plus")):
